@@ -1536,6 +1536,18 @@ def as_indexable(it, x):
         n = x[0].length if x[0].length is not None else seq_len(t)
         it.ctx.assume(zint(n) >= 0)
         return 0, n, (lambda j: mkstr([Opq(seq_str_at(t, j))]))
+    if isinstance(x, SStr):
+        # characters of a string of symbolic length: code point j is an uninterpreted function of (text, j)
+        t = str_term(x)
+        n = ops.str_len(it.ctx, x)
+        it.ctx.assume(zint(n) >= 0)
+        cp = ufun('str_cp_at', PyStr, z3.IntSort(), z3.IntSort())
+
+        def elem(j):
+            c = cp(t, zint(j))
+            it.ctx.assume(z3.And(c >= 0, c <= 0x10FFFF))
+            return mkstr([c])
+        return 0, n, elem
     raise Unsupported("invariant-cut loop over %s" % type(x).__name__)
 
 
